@@ -21,8 +21,8 @@ EXTRACTORS = ["stepfile", "instmgr", "attrnull", "enums"]
 def schema_lines(schema):
     out = []
     for e in schema.entities:
-        full = " ".join(f"{a.base}:{1 if a.optional else 0}" for a in schema.all_attrs(e.name))
-        own = " ".join(f"{a.base}:{1 if a.optional else 0}" for a in e.attrs)
+        full = " ".join(f"{a.base}:{1 if a.optional else 0}:{1 if a.type_ref else 0}" for a in schema.all_attrs(e.name))
+        own = " ".join(f"{a.base}:{1 if a.optional else 0}:{1 if a.type_ref else 0}" for a in e.attrs)
         out.append(f"attrs full {e.name.upper()} {full}".rstrip())
         out.append(f"attrs own {e.name.upper()} {own}".rstrip())
     return out
@@ -98,9 +98,26 @@ def gen_files(rng, schema, quick):
         ids = id_scheme(rng, scheme, len(pop), prev)
         ren = {i.id: new for i, new in zip(pop, ids)}
         pop = [G.Inst(ren[i.id], [(nm, [G.map_refs(v, lambda r: ren[r]) for v in vs]) for nm, vs in i.parts]) for i in pop]
+        if files and rng.random() < 0.5:
+            pop = align_first_ref(files[-1][1], pop)
+            scheme += "+first-ref=prev-last-ref"
         prev = [i.id for i in pop]
         files.append((scheme, pop))
     return files
+
+
+def align_first_ref(prev_pop, pop):
+    """renumber `pop` so that the first reference it contains (in reading order) bears the same number as the last
+    reference of the previous file - the situation in which any state the reader carries from one reference to the
+    next, or from one file to the next, shows"""
+    last = [r for i in prev_pop for r in G.inst_refs(i)]
+    first = [r for i in pop for r in G.inst_refs(i)]
+    if not last or not first or last[-1] == first[0]:
+        return pop
+    a, b = first[0], last[-1]
+    ren = {a: b, b: a}        # swap (b may or may not be an id of pop; ids stay distinct either way)
+    f = lambda x: ren.get(x, x)
+    return [G.Inst(f(i.id), [(nm, [G.map_refs(v, f) for v in vs]) for nm, vs in i.parts]) for i in pop]
 
 
 # ------------------------------------------------------------------ the statement on the implementation's output
@@ -160,12 +177,12 @@ def run_case(ctx, h, m, schema, files, strict, workdir, tag, layout_rng=None):
         return ("property", f"written file cannot be parsed ({ex})")
     final = parse_dump(dumps[-1][0])
     # --- oracle on the implementation
-    for r in reads_h:
-        if r["sev"] not in ("NULL", "USERMSG"):
-            return ("property", f"conforming file not read cleanly: severity {r['sev']} ({r})")
     e = oracle(files, reads_h, final, written)
     if e:
         return ("property", e)
+    for r in reads_h:
+        if r["sev"] not in ("NULL", "USERMSG"):
+            return ("property", f"conforming file not read cleanly: severity {r['sev']} ({r})")
     # earlier instances untouched after every step: compare dumps prefix + states
     if any(st != "completeSE" for _, _, st in final):
         return ("property", f"instances not complete after reading conforming files: {final}")
@@ -240,8 +257,16 @@ def run(ctx):
         return
     quick = ctx.tier == "quick"
     n_schemas, n_cases = (3, 60) if quick else (24, 250)
-    schemas = [G.gen_schema(ctx.rng, f"ap{si}", n_entities=ctx.rng.randint(3, 6), cover_all_kinds=(si == 0),
-                            p_optional=0.4, with_complex=True) for si in range(n_schemas)]
+    sel_kinds = ["SELECT_L", "SELECT_N", "SELECT_R", "AGG_SELL", "SELECT_E", "SELECT_M", "AGG_SEL", "AGG_SELE", "ENTITY",
+                 "AGG_ENT", "INTEGER", "STRING", "D2_REAL"]
+    schemas = []
+    for si in range(n_schemas):
+        if si == 1:     # select-heavy: typed select values carrying entity references, nested and renamed selects
+            schemas.append(G.gen_schema(ctx.rng, f"ap{si}", n_entities=5, kinds=sel_kinds, cover_all_kinds=True,
+                                        p_optional=0.3, with_complex=True))
+        else:
+            schemas.append(G.gen_schema(ctx.rng, f"ap{si}", n_entities=ctx.rng.randint(3, 6), cover_all_kinds=(si == 0),
+                                        p_optional=0.4, with_complex=True, extra=(si % 2 == 0)))
     t0 = time.time()
     with cf.ThreadPoolExecutor(max_workers=8) as ex:
         built = list(ex.map(lambda s: build_schema(b, s, os.path.join(ctx.work, s.name), False), schemas))
@@ -249,7 +274,7 @@ def run(ctx):
     for s, (exe, _) in zip(schemas, built):
         wd = os.path.join(ctx.work, s.name)
         h, m = Harness(exe, b.env()), Model(model_exe, s)
-        t, bad = time.time(), None
+        t, bad, corr = time.time(), None, []
         try:
             check_schema_table(h, s)
             for ci in range(n_cases):
@@ -266,13 +291,21 @@ def run(ctx):
                 ctx.hist("ids shared by file 1 and 2", "0" if overlap == 0 else "1+" if overlap < len(files[1][1]) else "all")
                 nref = sum(len(G.inst_refs(i)) for _, p in files[1:] for i in p)
                 ctx.hist("references in appended files", "0" if nref == 0 else "1-5" if nref <= 5 else "6+")
-                if r:
+                if r and r[0] == "property":
                     bad = (r, files, strict, ci)
                     break
+                if r and bad is None:
+                    # model and code disagree while the oracle is satisfied: remember it, but keep looking for an input on
+                    # which the implementation fails the property itself (FRAMEWORK: violation search first)
+                    first_disagreement = (r, files, strict, ci)
+                    bad_corr = first_disagreement
+                    corr.append(bad_corr)
         finally:
             pass
+        if bad is None and corr:
+            bad = corr[0]
         ctx.cov["correspondence"][s.name] = {"histories": ci + 1, "problem": bad[0][0] if bad else None,
-                                             "wall_s": round(time.time() - t, 1)}
+                                             "disagreements": len(corr), "wall_s": round(time.time() - t, 1)}
         if bad:
             (kind, what), files, strict, ci = bad
 
